@@ -9,7 +9,7 @@ use serde_json::{json, Value};
 use std::io::Write;
 use std::panic::{catch_unwind, AssertUnwindSafe};
 
-#[derive(Debug, Clone, Deserialize)]
+#[derive(Debug, Clone, Deserialize, serde::Serialize)]
 pub struct Job {
     pub id: u64,
     pub cfg: Cfg,
